@@ -7,7 +7,11 @@ The HTML slice proves that a raw-text element is read back intact PROVIDED the s
 of the host (`SubKeeps`, `Proofs/C09HtmlModelRaw.lean`).  For the CSS declaration writer that contract is false: the value
 tokens `<` `/` `style` `>` — none of which contains `</style` — are written `</style >` (the writer puts `/` tight against
 both neighbours), which the HTML tokeniser reads as the end tag of the enclosing `style` element.  Reproduced on the real
-code: `<style>a{b:< /style >}</style><p>x</p>` ↦ `<style>a{b:</style >}</style><p>x`.
+code (before /repo 1557146): `<style>a{b:< /style >}</style><p>x</p>` ↦ `<style>a{b:</style >}</style><p>x`.
+
+Since 1557146 the HOST enforces the contract: html.go re-reads `<tag>` + result + `</tag>` with its own lexer and keeps the
+original payload unless the result is read back as exactly one text token.  The CSS writer still behaves as stated here (the
+statement is about the writer); the defect K-C09-3 is repaired on the host side, its inputs are regression documents of the sweep.
 -/
 namespace Verif.Proofs.C09Embed
 open Verif.Spec.CssValue Verif.Model.Css Verif.Spec.C09HtmlShape
